@@ -69,6 +69,10 @@ func (ch *Checker) balance(a *model.Assertion, bal *model.Balance) error {
 	if ch.NoCheck {
 		return nil
 	}
+	if !bal.Account.IsAL() {
+		// quantities are tracked for asset and liability accounts only: there is nothing to compare with
+		return nil
+	}
 	if qty := ch.quantities[position]; !qty.Equal(bal.Quantity) {
 		return Error{Directive: a, Msg: fmt.Sprintf("failed assertion: %s has position: %s %s", position.Account.Name(), qty, position.Commodity.Name())}
 	}
